@@ -248,6 +248,128 @@ def abort_plan(rel, cls):
     return f".direct none {lstrs(cmds)} {lstr(belief)}"
 
 
+# ---------- the same plan MEASURED on the live class (both stacks): what `_abort_config` writes and which level the
+# driver believes afterwards, from every configuration level / pattern.  The AST reading above is shape-dependent; this
+# is not.  generate(): AST readable -> both must agree; AST unreadable -> the measured plan is used (a rewrite of the
+# method that keeps its behaviour does not stop the check); behaviour not expressible as an AbortPlan -> TranslateError
+# that says what was measured (the real-code families of props/c13.py run regardless).
+def _probe_abort(module, cls, name, pattern):
+    import asyncio, inspect
+    live = _live_class(module, cls)
+
+    class Lvl:
+        def __init__(self, n, pt):
+            self.name, self.pattern = n, pt
+
+    class Levels(dict):
+        def __missing__(self, k):
+            return Lvl(k, "")
+
+    rec = {"sent": [], "inner": None}
+    is_async = inspect.iscoroutinefunction(live._abort_config)
+
+    def send_input(*a, **kw):
+        rec["sent"].append(a[0] if a else kw.get("channel_input"))
+        return (b"", b"")
+
+    def send_configs(*a, **kw):
+        cfgs = a[0] if a else kw.get("configs")
+        rec["inner"] = (list(cfgs), {k: v for k, v in kw.items() if k != "configs"})
+        return None
+
+    def lift(f):
+        if not is_async:
+            return f
+        async def g(*a, **kw):
+            return f(*a, **kw)
+        return g
+
+    class Chan:
+        pass
+
+    class Stub:
+        pass
+
+    st = Stub()
+    st.channel = Chan()
+    st.channel.send_input = lift(send_input)
+    st.send_configs = lift(send_configs)
+    st.privilege_levels = Levels()
+    start = Lvl(name, pattern)
+    st._current_priv_level = start
+    try:
+        r = live._abort_config(st)
+        if inspect.iscoroutine(r):
+            asyncio.run(r)
+    except Exception as e:  # noqa
+        raise TranslateError(f"{module}.{cls}._abort_config cannot be probed on a stub: {e!r}")
+    after = st._current_priv_level
+    return rec["sent"], rec["inner"], (None if after is start else after.name)
+
+
+def behaviour_plan(rel, cls):
+    """-> Lean term of type AbortPlan derived from the measured behaviour only"""
+    module = rel[:-3].replace("/", ".")
+    where = f"{rel}:{cls}._abort_config (measured on the live class)"
+    fn = _method(rel, cls, "_abort_config", required=False)
+    consts = sorted({n.value for n in ast.walk(fn) if isinstance(n, ast.Constant) and isinstance(n.value, str)}) if fn is not None else []
+    if fn is not None and ast.get_docstring(fn) in consts:
+        consts.remove(ast.get_docstring(fn))
+    names = ["configuration", "configuration_exclusive", "configuration_private", "exec", "privilege_exec"]
+    probes = [(n, pt, *_probe_abort(module, cls, n, pt)) for n in names for pt in [""] + consts]
+    if all(not sent and inner is None and after is None for _, _, sent, inner, after in probes):
+        return ".nothing"
+    if any(inner is not None for _, _, _, inner, _ in probes):
+        inners = [inner for _, _, _, inner, _ in probes]
+        if any(i is None for i in inners) or any(sent for _, _, sent, _, _ in probes) or len({tuple(i[0]) for i in inners}) != 1:
+            raise TranslateError(f"{where}: inner send_configs is not used uniformly: {probes[:3]!r}")
+        afters = {after for _, _, _, _, after in probes}
+        if len(afters) != 1 or None in afters:
+            raise TranslateError(f"{where}: privilege level believed after the inner send_configs is {sorted(map(str, afters))}, not one fixed level")
+        kws = [(n, i[1]) for n, _, _, i, _ in probes]
+        if any(set(k) - {"privilege_level"} for _, k in kws):
+            raise TranslateError(f"{where}: inner send_configs passes unexpected keywords")
+        if all("privilege_level" not in k for _, k in kws):
+            larg = ".default"
+        elif all(k.get("privilege_level") == n for n, k in kws):
+            larg = ".current"
+        else:
+            pre = [c for c in consts if all(k.get("privilege_level") == (n if n.startswith(c) else "") for n, k in kws)]
+            if len(pre) != 1:
+                raise TranslateError(f"{where}: privilege_level of the inner send_configs not expressible: {kws!r}")
+            larg = f"(.currentIfPrefix {lstr(pre[0])})"
+        return f".viaSendConfigs {lstrs(inners[0][0])} {larg} {lstr(afters.pop())}"
+    sending = [pr for pr in probes if pr[2]]
+    quiet = [pr for pr in probes if not pr[2]]
+    if len({tuple(pr[2]) for pr in sending}) != 1:
+        raise TranslateError(f"{where}: lines written differ between levels: {[(pr[0], pr[2]) for pr in sending][:4]!r}")
+    afters = {pr[4] for pr in sending}
+    if len(afters) != 1 or None in afters:
+        raise TranslateError(f"{where}: after writing {sending[0][2]!r} the driver's privilege level is "
+                             f"{sorted('unchanged' if a is None else a for a in afters)}, not reset to one fixed level")
+    if any(pr[4] is not None for pr in quiet):
+        raise TranslateError(f"{where}: privilege level changed without an abort line being written")
+    if not quiet:
+        guard = "none"
+    else:
+        ms = [c for c in consts if all((c in pr[1]) == bool(pr[2]) for pr in probes)]
+        if len(ms) != 1:
+            raise TranslateError(f"{where}: condition under which {sending[0][2]!r} is written not expressible as one marker in the level pattern")
+        guard = f"(some {lstr(ms[0])})"
+    return f".direct {guard} {lstrs(sending[0][2])} {lstr(afters.pop())}"
+
+
+def tolerant_abort_plan(rel, cls):
+    try:
+        a = abort_plan(rel, cls)
+    except TranslateError:
+        a = None
+    m = behaviour_plan(rel, cls)
+    if a is not None and a != m:
+        raise TranslateError(f"{rel}:{cls}._abort_config: read from the AST as {a} but the live class behaves as {m}")
+    return m
+
+
 # ---------- control-structure shape assertions (the model's control flow is hand-written; these make the
 # translator notice when the code's structure stops being the one that was modelled)
 def _unp(node):
@@ -682,7 +804,7 @@ def generate():
     b += "\n"
     for p in PLATFORMS:
         for stack, cls in (("sync", DRIVER_CLASS[p]), ("async", "Async" + DRIVER_CLASS[p])):
-            plan = abort_plan(f"scrapli/driver/core/{p}/{stack}_driver.py", cls)
+            plan = tolerant_abort_plan(f"scrapli/driver/core/{p}/{stack}_driver.py", cls)
             b += f"def abort{SHORT[p].capitalize()}{stack.capitalize()} : AbortPlan := {plan}\n"
     b += "\n"
     for p, cls in (("cisco_nxos", "NXOSDriverBase"), ("arista_eos", "EOSDriverBase")):
